@@ -434,6 +434,7 @@ func runC03(cfg Config) {
 		}
 	}
 	runC03Consumers(cfg, rep, rng)
+	c03Held(cfg, rep, rng, s3f, sshWrap, sshErr == nil)
 	rep.Write(cfg.Out)
 }
 
